@@ -8,10 +8,7 @@ use crate::report::{fnv, hex, Report};
 use crate::util::{guard, panic_site};
 use jxl_oxide::{AllocTracker, CropInfo, EnumColourEncoding, InitializeResult, JxlImage, JxlThreadPool, RenderingIntent};
 use serde_json::json;
-use std::io::{BufRead, BufReader, Read, Write};
-use std::process::{Command, Stdio};
-use std::sync::mpsc;
-use std::time::{Duration, Instant};
+use std::time::Duration;
 
 const LIMIT: usize = 64 << 20;
 
@@ -296,133 +293,9 @@ pub fn generate(quick: bool) -> Vec<(Vec<u8>, u32, u32, String)> {
     out
 }
 
-// ---------------------------------------------------------------------------------------------
-// worker / parent
-
-pub fn worker(shard: &str, start: usize) -> ! {
-    crate::util::install_panic_hook();
-    let mut f = std::fs::File::open(shard).expect("shard");
-    let mut data = Vec::new();
-    f.read_to_end(&mut data).unwrap();
-    let mut pos = 0usize;
-    let mut idx = 0usize;
-    let out = std::io::stdout();
-    while pos + 12 <= data.len() {
-        let len = u32::from_le_bytes(data[pos..pos + 4].try_into().unwrap()) as usize;
-        let order = u32::from_le_bytes(data[pos + 4..pos + 8].try_into().unwrap());
-        let chunk = u32::from_le_bytes(data[pos + 8..pos + 12].try_into().unwrap());
-        let bytes = &data[pos + 12..pos + 12 + len];
-        pos += 12 + len;
-        if idx >= start {
-            {
-                let mut o = out.lock();
-                let _ = writeln!(o, "B {idx}");
-                let _ = o.flush();
-            }
-            let r = run_case(bytes, order, chunk);
-            let mut o = out.lock();
-            let _ = writeln!(o, "E {idx} {r}");
-            let _ = o.flush();
-        }
-        idx += 1;
-    }
-    std::process::exit(0)
-}
-
-struct ShardResult {
-    outcomes: Vec<(usize, String)>,
-}
-
-fn run_shard(exe: &str, shard: &str, n: usize, deadline: Duration) -> ShardResult {
-    let mut res = ShardResult { outcomes: vec![] };
-    let mut start = 0usize;
-    while start < n {
-        let mut child = Command::new(exe).args(["C01", "--worker", shard, &start.to_string()]).stdout(Stdio::piped()).stderr(Stdio::null()).spawn().expect("spawn worker");
-        let stdout = child.stdout.take().unwrap();
-        let (tx, rx) = mpsc::channel::<String>();
-        let reader = std::thread::spawn(move || {
-            for line in BufReader::new(stdout).lines().map_while(Result::ok) {
-                if tx.send(line).is_err() {
-                    break;
-                }
-            }
-        });
-        let mut in_flight: Option<(usize, Instant)> = None;
-        let mut next = start;
-        loop {
-            match rx.recv_timeout(Duration::from_millis(250)) {
-                Ok(line) => {
-                    let mut it = line.split(' ');
-                    match (it.next(), it.next().and_then(|x| x.parse::<usize>().ok())) {
-                        (Some("B"), Some(i)) => in_flight = Some((i, Instant::now())),
-                        (Some("E"), Some(i)) => {
-                            res.outcomes.push((i, it.collect::<Vec<_>>().join(" ")));
-                            in_flight = None;
-                            next = i + 1;
-                        }
-                        _ => {}
-                    }
-                }
-                Err(mpsc::RecvTimeoutError::Timeout) => {
-                    if let Some((i, t0)) = in_flight {
-                        if t0.elapsed() > deadline {
-                            let _ = child.kill();
-                            let _ = child.wait();
-                            res.outcomes.push((i, format!("hang(>{}s)", deadline.as_secs())));
-                            next = i + 1;
-                            break;
-                        }
-                    }
-                    if let Ok(Some(st)) = child.try_wait() {
-                        // drain remaining lines
-                        while let Ok(line) = rx.recv_timeout(Duration::from_millis(50)) {
-                            let mut it = line.split(' ');
-                            match (it.next(), it.next().and_then(|x| x.parse::<usize>().ok())) {
-                                (Some("B"), Some(i)) => in_flight = Some((i, Instant::now())),
-                                (Some("E"), Some(i)) => {
-                                    res.outcomes.push((i, it.collect::<Vec<_>>().join(" ")));
-                                    in_flight = None;
-                                    next = i + 1;
-                                }
-                                _ => {}
-                            }
-                        }
-                        if let Some((i, _)) = in_flight {
-                            use std::os::unix::process::ExitStatusExt;
-                            res.outcomes.push((i, format!("abort(signal {:?}, code {:?})", st.signal(), st.code())));
-                            next = i + 1;
-                        } else if !st.success() {
-                            crate::explore::machinery_failure(&format!("worker exited with {st} between cases"));
-                        } else {
-                            next = n;
-                        }
-                        break;
-                    }
-                }
-                Err(mpsc::RecvTimeoutError::Disconnected) => {
-                    let st = child.wait().ok();
-                    if let Some((i, _)) = in_flight {
-                        use std::os::unix::process::ExitStatusExt;
-                        res.outcomes.push((i, format!("abort(signal {:?}, code {:?})", st.and_then(|s| s.signal()), st.and_then(|s| s.code()))));
-                        next = i + 1;
-                    } else {
-                        next = n;
-                    }
-                    break;
-                }
-            }
-        }
-        let _ = child.kill();
-        let _ = child.wait();
-        let _ = reader.join();
-        start = next;
-    }
-    res
-}
-
 pub fn main(args: &crate::Args) {
     if args.rest.first().map(|s| s == "--worker").unwrap_or(false) {
-        worker(&args.rest[1], args.rest[2].parse().unwrap_or(0));
+        crate::workers::worker_main(&args.rest[1], args.rest[2].parse().unwrap_or(0), run_case);
     }
     crate::util::install_panic_hook();
     let mut rep = Report::new("C01", &args.tier, "exploration");
@@ -431,59 +304,28 @@ pub fn main(args: &crate::Args) {
         replay(p);
     }
     let cases = generate(quick);
-    let nshards = crate::explore::n_threads();
-    let dir = format!("{}/target/c01", crate::verif_dir());
-    let _ = std::fs::remove_dir_all(&dir);
-    std::fs::create_dir_all(&dir).unwrap();
-    let mut shard_cases: Vec<Vec<usize>> = vec![vec![]; nshards];
-    for i in 0..cases.len() {
-        shard_cases[i % nshards].push(i);
-    }
-    for (k, idxs) in shard_cases.iter().enumerate() {
-        let mut f = std::io::BufWriter::new(std::fs::File::create(format!("{dir}/shard{k}.bin")).unwrap());
-        for &i in idxs {
-            let (b, o, c, _) = &cases[i];
-            f.write_all(&(b.len() as u32).to_le_bytes()).unwrap();
-            f.write_all(&o.to_le_bytes()).unwrap();
-            f.write_all(&c.to_le_bytes()).unwrap();
-            f.write_all(b).unwrap();
-        }
-    }
-    let exe = std::env::current_exe().unwrap().to_string_lossy().to_string();
     let deadline = Duration::from_secs(if quick { 10 } else { 60 });
-    let results: Vec<ShardResult> = std::thread::scope(|s| {
-        let hs: Vec<_> = (0..nshards)
-            .map(|k| {
-                let exe = exe.clone();
-                let shard = format!("{dir}/shard{k}.bin");
-                let n = shard_cases[k].len();
-                s.spawn(move || run_shard(&exe, &shard, n, deadline))
-            })
-            .collect();
-        hs.into_iter().map(|h| h.join().unwrap()).collect()
-    });
+    let triples: Vec<(&[u8], u32, u32)> = cases.iter().map(|c| (&c.0[..], c.1, c.2)).collect();
+    let outcomes = crate::workers::run_cases("C01", &triples, deadline);
     let mut done = 0u64;
-    for (k, r) in results.iter().enumerate() {
-        for (local, outcome) in &r.outcomes {
-            let gi = shard_cases[k][*local];
-            let (bytes, order, chunk, name) = &cases[gi];
-            done += 1;
-            rep.eval();
-            let class = outcome.split('(').next().unwrap_or("").to_string();
-            rep.outcome(if outcome.starts_with("panic@") { "panic" } else { &class });
-            if outcome != "read:err" && outcome != "uninit" {
-                rep.nontrivial(fnv(bytes) ^ (*order as u64) << 3 ^ *chunk as u64);
-            }
-            if outcome.starts_with("panic@") || outcome.starts_with("hang") || outcome.starts_with("abort") {
-                let key = if outcome.starts_with("panic@") { outcome.clone() } else { format!("{}:{}", class, name.split(':').next().unwrap_or("")) };
-                rep.violation(&key, &format!("{outcome} on input {name} (order {order}, chunking {chunk}, {} bytes)", bytes.len()), &json!({"input_hex": hex(&bytes[..bytes.len().min(20000)]), "input_len": bytes.len(), "name": name, "order": order, "chunk": chunk}));
-            }
+    for (gi, outcome) in outcomes.iter().enumerate() {
+        let (bytes, order, chunk, name) = &cases[gi];
+        let Some(outcome) = outcome else { continue };
+        done += 1;
+        rep.eval();
+        let class = outcome.split('(').next().unwrap_or("").to_string();
+        rep.outcome(if outcome.starts_with("panic@") { "panic" } else { &class });
+        if outcome != "read:err" && outcome != "uninit" {
+            rep.nontrivial(fnv(bytes) ^ (*order as u64) << 3 ^ *chunk as u64);
+        }
+        if outcome.starts_with("panic@") || outcome.starts_with("hang") || outcome.starts_with("abort") {
+            let key = if outcome.starts_with("panic@") { outcome.clone() } else { format!("{}:{}", class, name.split(':').next().unwrap_or("")) };
+            rep.violation(&key, &format!("{outcome} on input {name} (order {order}, chunking {chunk}, {} bytes)", bytes.len()), &json!({"input_hex": hex(&bytes[..bytes.len().min(20000)]), "input_len": bytes.len(), "name": name, "order": order, "chunk": chunk}));
         }
     }
     if done as usize != cases.len() {
         crate::explore::machinery_failure(&format!("only {done} of {} cases reported an outcome", cases.len()));
     }
-    let _ = std::fs::remove_dir_all(&dir);
     rep.rule = format!("(a) {} byte strings of length <= 2 and all 3/4-byte strings behind the signatures ff0a / 0000; (b) ALL 1-deviation mutants (every byte position up to a per-seed cap x {{00, ff, b^01, b^80, b+1, b-1, 6 further single-bit flips}}, and truncation at every such position) of {} seeds (jxlw corpus, the 60 hostile regressions of the repository, cmyk_layers.jxl), each seed also in all 6 call orders and 4 chunkings; (c) structured inputs: every 1-deviation extreme-but-valid image header of C14's alphabet and 20 degenerate colour encodings (unknown colour space / transfer function, gamma 0, degenerate chromaticities, XYB) followed by a valid frame; every input runs read() or chunked feed + try_init, then the four call groups (metadata incl. rendered_icc/cicp/pixel_format/aux boxes; render keyframes + loading frame + region; JPEG reconstruction status/reconstruct; request_color_encoding/request_icc) in an order fixed by the input's hash; in worker subprocesses built with overflow checks + debug assertions, 64 MiB tracker, {} s per-case watchdog. Oracle: every call returns; no panic, abort or hang. Non-trivial = input gets past initialisation.", if quick { "sampled" } else { "ALL 65793" }, "82", deadline.as_secs());
     rep.sample(json!({"input_hex": hex(&cases[cases.len() / 2].0[..cases[cases.len() / 2].0.len().min(64)]), "name": cases[cases.len() / 2].3}));
     rep.sample(json!({"name": cases.last().unwrap().3, "bytes": cases.last().unwrap().0.len()}));
